@@ -63,6 +63,9 @@ def run(ctx) -> None:
     r10_re_needs_text(ctx)
     r11_placeholder_delimiters(ctx)
     r12_numbers_exact(ctx)
+    # type-changing modifiers take over the parts of the value; printing and parsing it again changes it (shared with C05.R5)
+    from . import c05
+    c05.r5_reparse_sites(ctx, "C03.R13")
 
 
 def r1_registry(ctx, reg: dict[str, str]) -> None:
@@ -514,11 +517,11 @@ def _raises_sigma(prog, f: FuncInfo, rs: ast.Raise) -> bool:
     return bool(q) and is_sigma_error(prog, q)
 
 
-def r10_re_needs_text(ctx) -> None:
+def r10_re_needs_text(ctx, rid: str = "C03.R10") -> None:
     """`re` is applied before typing: from_mapping wraps the raw YAML value into a SigmaString itself (no escaping), so the
     generic type gate of SigmaModifier.apply sees a SigmaString whatever the YAML value was."""
     r, prog = ctx.r, ctx.prog
-    r.rule("C03.R10", "a raw value is wrapped with SigmaString.from_str only if it is a str: the call is guarded by isinstance(v, str), or a refusal (Sigma error) for `not all(isinstance(v, str) …)` under the same modifier test precedes it")
+    r.rule(rid, "a raw value is wrapped with SigmaString.from_str only if it is a str: the call is guarded by isinstance(v, str), or a refusal (Sigma error) for `not all(isinstance(v, str) …)` under the same modifier test precedes it")
     n = 0
     for q, f in sorted(prog.funcs.items()):
         if f.module.name not in ("sigma.rule.detection", "sigma.modifiers"):
@@ -530,13 +533,32 @@ def r10_re_needs_text(ctx) -> None:
             while isinstance(arg, ast.Call) and call_name(arg) == "cast" and len(arg.args) == 2:
                 arg = arg.args[1]
             if isinstance(arg, ast.Constant) and isinstance(arg.value, str):
-                r.ok("C03.R10", q, f"{short(c, 60)}: constant text", loc)
+                r.ok(rid, q, f"{short(c, 60)}: constant text", loc)
                 continue
             at = unparse(arg) if arg is not None else "?"
+            # literal wrapping (no escape/wildcard parsing) is the meaning of the re modifier alone: every other modifier gets
+            # the parsed value, in which \\* is a star and * a wildcard
+            mods = set()
+            def _mods(e, depth=0):
+                for x in ast.walk(e):
+                    if isinstance(x, ast.Name) and x.id.endswith("Modifier"):
+                        mods.add(x.id)
+                    elif isinstance(x, ast.Name) and depth < 2:
+                        for v in assignments_to(f.node, x.id):
+                            if isinstance(v, ast.AST) and not isinstance(v, (ast.For, ast.comprehension, ast.With, ast.ExceptHandler)):
+                                _mods(v, depth + 1)
+            for t_, pol_ in guards_at(prog, f, c):
+                if pol_:
+                    _mods(t_)
+            extra = sorted(mods - {"SigmaRegularExpressionModifier"})
+            if extra:
+                r.violation(rid, q, short(prog.enclosing_stmt(c), 120),
+                            f"the raw text of the value is also taken literally under {extra}: escapes and wildcards are part of the Sigma value for every modifier but `re` — `f|base64: 'a\\*'` would encode the backslash, and an unescaped wildcard would be encoded instead of refused", loc)
+                continue
             # (a) element-wise guard
             gs = atomic_guards(guards_at(prog, f, c))
             if (f"isinstance({at}, str)", True) in gs:
-                r.ok("C03.R10", q, f"{short(c, 60)} under isinstance({at}, str)", loc)
+                r.ok(rid, q, f"{short(c, 60)} under isinstance({at}, str)", loc)
                 continue
             # (b) a refusal before the call, read off the CFG guards: (A and not all(isinstance(x, str) for x in L)) is False
             # and A is True at the call  =>  every element of L is a str; the wrapped value must be an element of L
@@ -560,11 +582,11 @@ def r10_re_needs_text(ctx) -> None:
                         if comp is not None and unparse(comp.generators[0].iter) == lst and unparse(comp.generators[0].target) == at:
                             refused = True
             if refused:
-                r.ok("C03.R10", q, f"{short(c, 60)}: non-text values are refused with a Sigma error before the wrapping", loc)
+                r.ok(rid, q, f"{short(c, 60)}: non-text values are refused with a Sigma error before the wrapping", loc)
             else:
-                r.violation("C03.R10", q, short(prog.enclosing_stmt(c), 120),
+                r.violation(rid, q, short(prog.enclosing_stmt(c), 120),
                             f"{at} comes from the YAML document and is wrapped into a SigmaString unchecked: `f|re: 123` yields a regular expression holding an int (later TypeError/AttributeError in modifiers and backends instead of a Sigma type error)", loc)
-    r.floor("C03.R10", 1)
+    r.floor(rid, 1)
 
 
 def r11_placeholder_delimiters(ctx) -> None:
